@@ -454,6 +454,20 @@ class DiscreteStridedIntervalSet(StridedInterval):
 
         return list(ret)[:n]
 
+    def min(self, signed=False):
+        """
+        The smallest value of all members.
+        """
+        values = [v for v in (si.min(signed=signed) for si in self._si_set) if v is not None]
+        return min(values) if values else None
+
+    def max(self, signed=False):
+        """
+        The greatest value of all members.
+        """
+        values = [v for v in (si.max(signed=signed) for si in self._si_set) if v is not None]
+        return max(values) if values else None
+
     # Set operations
 
     def union(self, b):
@@ -592,12 +606,11 @@ class DiscreteStridedIntervalSet(StridedInterval):
         for si in dsis._si_set:
             r = self._intersection_with_si(si)
 
-            if isinstance(r, StridedInterval):
-                if not r.is_empty:
-                    new_si_set.add(r)
+            if isinstance(r, DiscreteStridedIntervalSet):
+                new_si_set |= {si_ for si_ in r._si_set if not si_.is_empty}
 
-            else:  # r is a DiscreteStridedIntervalSet
-                new_si_set |= r._si_set
+            elif not r.is_empty:
+                new_si_set.add(r)
 
         if len(new_si_set):
             ret = DiscreteStridedIntervalSet(bits=self.bits, si_set=new_si_set)
